@@ -146,8 +146,7 @@ def run(ctx):
 def run_state(ctx, cases, what):
     import multiprocessing
     from .. import statedrv
-    with multiprocessing.get_context("fork").Pool(ctx.workers) as pool:
-        res = pool.map(statedrv.execute, cases, chunksize=max(1, len(cases) // (ctx.workers * 8)))
+    res = ctx.pool().map(statedrv.execute, cases, chunksize=max(1, min(100, len(cases) // (ctx.workers * 4))))
     traces = []
     for c, (tr, err) in zip(cases, res):
         if err:
